@@ -413,7 +413,7 @@ func c08NamespaceRewrite(c *Check, a *Anchors) {
 	c.Fn(fb)
 	info := fb.Info()
 	name := fnDisplay(fb)
-	helper := c.P.Func(PkgAst, "", "taskNameWithNamespace")
+	helper := namespaceHelper(c, a)
 	if helper == nil {
 		c.Errorf("namespace-rewrite: namespacing helper not found")
 		return
@@ -433,8 +433,8 @@ func c08NamespaceRewrite(c *Check, a *Anchors) {
 	// the rewrite may live in a helper of Merge (applyNamespace(task, orig, name, include)): judge Merge and the functions of
 	// the package it calls as one body (the obligations are about field types, not about variable identity)
 	var groupBodies []*FuncBody
-	for _, g := range c.P.groupOf(fb, 1) {
-		if g != helper && (g == fb || g.Decl.Recv == nil) {
+	for _, g := range mergeGroup(c, fb) {
+		if g != helper {
 			groupBodies = append(groupBodies, g)
 		}
 	}
@@ -674,7 +674,7 @@ func ordinalKeyN(c *Check, rule, base string) string {
 
 func c08RootRef(c *Check, a *Anchors) {
 	c.Rule("root-ref-absorbing", "Tasks.Merge is applied once per include level, so the namespacing helper must be stable under repetition: on the branch where it recognises a root reference (leading separator) the result must still be recognisable as one; two-point abstract evaluation over {marked, unmarked} names")
-	helper := c.P.Func(PkgAst, "", "taskNameWithNamespace")
+	helper := namespaceHelper(c, a)
 	if helper == nil {
 		c.Errorf("root-ref-absorbing: namespacing helper not found")
 		return
@@ -701,7 +701,49 @@ func c08RootRef(c *Check, a *Anchors) {
 		}
 	}
 	// number of merge levels: the graph merge walks every non-root vertex
-	c.Decide(!stripped, "root-ref-absorbing", "marked-stays-marked@"+fnDisplay(helper), marked.Pos(), "a root reference stays marked until the merge into the root",
+	c.Decide(!stripped, "root-ref-absorbing", "marked-stays-marked@namespacing-helper", marked.Pos(), "a root reference stays marked until the merge into the root",
 		"f(marked) = unmarked and f(unmarked) = namespace:unmarked: the root marker is stripped at the FIRST merge, so a ':foo' reference written two includes deep is namespaced by the outer include at the second merge and is bound to <outer namespace>:foo instead of the root Taskfile's foo")
 	_ = sort.Strings
+}
+
+
+// namespaceHelper resolves the namespacing helper by what it does: the (string, string) string function of taskfile/ast that
+// Tasks.Merge (or a function Merge hands the rewrite to) calls with Include.Namespace as one of its arguments.
+func namespaceHelper(c *Check, a *Anchors) *FuncBody {
+	merge := c.P.Func(PkgAst, "Tasks", "Merge")
+	if merge == nil {
+		return nil
+	}
+	info := merge.Info()
+	for _, g := range mergeGroup(c, merge) {
+		for _, call := range callsIn(g, true) {
+			fn, ok := callee(info, call).(*types.Func)
+			if !ok || fn.Pkg() == nil || fn.Pkg().Path() != PkgAst || len(call.Args) != 2 {
+				continue
+			}
+			sig := fn.Type().(*types.Signature)
+			if sig.Recv() != nil || sig.Results().Len() != 1 || types.TypeString(sig.Results().At(0).Type(), nil) != "string" {
+				continue
+			}
+			for _, arg := range call.Args {
+				if fieldSel(info, arg, PkgAst, "Include", "Namespace") {
+					return c.P.DeclOf(fn)
+				}
+			}
+		}
+	}
+	return nil
+}
+
+// mergeGroup: Tasks.Merge and the functions / methods of taskfile/ast it hands part of the work to — not the methods of the
+// ordered containers (Get / Set / All ... implement the table, they are not part of the merge logic).
+func mergeGroup(c *Check, merge *FuncBody) []*FuncBody {
+	containers := map[string]bool{"Tasks": true, "Vars": true, "Includes": true, "Matrix": true}
+	var out []*FuncBody
+	for _, g := range c.P.groupOf(merge, 1) {
+		if g == merge || !containers[recvOf(g)] {
+			out = append(out, g)
+		}
+	}
+	return out
 }
